@@ -59,18 +59,25 @@ Section Wrapper.
 
   Record outcome := Out { o_log : list event; o_ok : bool; o_sop : SS; o_parts : list PS }.
 
-  (* func (t *SinglePhaseTransaction) Begin *)
-  Definition w_begin (s : SS) (ps : list PS) : outcome :=
-    let (ok, s') := sstep s OBegin in
-    if ok then
-      let '(l, res, ps') := until_fail OBegin 0 ps in Out (Ev Sop OBegin true :: l) res s' ps'
-    else Out [Ev Sop OBegin false] false s' ps.
-
   (* func (t *SinglePhaseTransaction) Rollback: lastErr == nil iff every rollback succeeded *)
   Definition w_rollback (s : SS) (ps : list PS) : outcome :=
     let (ok, s') := sstep s ORollback in
     let '(l, res, ps') := for_all ORollback 0 ps in
     Out (Ev Sop ORollback ok :: l) (ok && res) s' ps'.
+
+  (* func (t *SinglePhaseTransaction) Begin. When participant i's Begin fails, what has begun so far is
+     rolled back before the error is returned: SOP's own transaction and otherTransactions[:i]
+     (i = number of calls made on participants - 1); the outcomes of these rollbacks are ignored. *)
+  Definition w_begin (s : SS) (ps : list PS) : outcome :=
+    let (ok, s') := sstep s OBegin in
+    if ok then
+      let '(l, res, ps') := until_fail OBegin 0 ps in
+      if res then Out (Ev Sop OBegin true :: l) true s' ps'
+      else
+        let i := pred (length l) in
+        let r := w_rollback s' (firstn i ps') in
+        Out ((Ev Sop OBegin true :: l) ++ o_log r) false (o_sop r) (o_parts r ++ skipn i ps')
+    else Out [Ev Sop OBegin false] false s' ps.
 
   (* the error paths of Commit: the calls so far, then t.Rollback(ctx); Commit returns an error either way *)
   Definition fail_with (pre : list event) (s : SS) (ps : list PS) : outcome :=
@@ -94,7 +101,7 @@ Section Wrapper.
   Inductive session := SCommit | SRollback.
 
   (* Begin, then Commit or Rollback when Begin succeeded; when Begin failed the caller either just
-     returns the error (cleanup = false) or calls Rollback (cleanup = true).
+     returns the error (cleanup = false) or calls Rollback as well (cleanup = true).
      Result: the whole call log, the success of each top-level call, the final states. *)
   Definition run_session (k : session) (cleanup : bool) (s : SS) (ps : list PS)
       : list event * list bool * SS * list PS :=
